@@ -290,6 +290,8 @@ class PrecipitateModel (PrecipitateBase):
                     self.pData.xEqBeta[self.pData.n,p] = c_eq_beta
 
         x = [self.PBM[p].PSD for p in range(len(self.phases))]
+        #Previous growth rate that _singleGrowthMulti falls back to if the first equilibrium calculation fails
+        self.growth = [np.zeros(self.PBM[p].bins + 1) for p in range(len(self.phases))]
         Y = self._calcNucleationRate(self.pData.time[self.pData.n], x, Y)
         self.growth, Y = self._growthRate(Y)
         self.pData.setSlice(Y, self.pData.n)
@@ -580,6 +582,8 @@ class PrecipitateModel (PrecipitateBase):
             #Also revert the PSD in case this function was called to adjust for the new PSD bins
             else:
                 growthRate = self.growth[p]
+                xEqAlpha = Y.xEqAlpha[0,p]
+                xEqBeta = Y.xEqBeta[0,p]
         else:
             growth, xAlpha, xBeta, xEqAlpha, xEqBeta = growth_result
             #Update interfacial composition for each precipitate size
